@@ -305,7 +305,10 @@ UpdateLine(envs, gs, any) ==
                            old == IF pos = 0 THEN [i \in 1..Len(AllItems) |-> St0] ELSE gs[pos].st
                            new == [i \in 1..Len(AllItems) |-> UpdateSt(AllItems[i], old[i], env)]
                            g == [key |-> k[2], kenv |-> env, st |-> new]
-                       IN UpdateLine(Tail(envs), IF pos = 0 THEN Append(gs, g) ELSE [gs EXCEPT ![pos] = [@ EXCEPT !.st = new]], TRUE)
+                           \* an aggregate whose update has no value (overflow, wrong type) fails the statement at this line
+                           firstBad == SelectSeq(new, LAMBDA x : x.bad # "ok")
+                       IN IF firstBad # <<>> THEN <<(IF \E i \in 1..Len(firstBad) : firstBad[i].bad = "unk" THEN "unk" ELSE firstBad[1].bad), gs, any>>
+                          ELSE UpdateLine(Tail(envs), IF pos = 0 THEN Append(gs, g) ELSE [gs EXCEPT ![pos] = [@ EXCEPT !.st = new]], TRUE)
 
 CurLine == files[fi][li + 1]
 
@@ -464,6 +467,41 @@ NoErrorFromInterrupt ==
 NoiseIsStutter ==
   [][(pc = "read" /\ pc' = "read" /\ li' = li + 1 /\ ~RowOf(tdef, files[fi][li + 1])[1])
         => UNCHANGED <<seen, nout, groups, printed, jidx, status>>]_vars
+
+\* C15: order-insensitive aggregates do not depend on the order of the lines, nor on how the input is cut
+OrderFree == IsAgg /\ \A i \in 1..Len(AllItems) : AllItems[i].a \notin {"array_agg", "string_agg"}
+AtStart == pc = "loadjoin" /\ ji = 0
+PermLaw ==
+  (AtStart /\ OrderFree) =>
+     LET ls == AllLines
+         ref == AggTable(q, SemEnvs(ls, jlines))
+     IN \A p \in Permutations(1..Len(ls)) :
+          LET t == AggTable(q, SemEnvs([i \in 1..Len(ls) |-> ls[p[i]]], jlines))
+          IN (KnownSt(ref.st) /\ KnownSt(t.st) /\ ref.st = "ok" /\ t.st = "ok") => t.recs = ref.recs
+\* the table over x \o y is the key-wise combination of the tables over x and over y, for the statement
+\*   SELECT k, COUNT(*), COUNT(v), SUM(v), MIN(v), MAX(v) ... GROUP BY k   (rows <<k, n, c, s, lo, hi>>)
+NullAdd(a, b) == IF IsNull(a) THEN b ELSE IF IsNull(b) THEN a ELSE ArithV("+", a, b).v
+NullMin(a, b) == IF IsNull(a) THEN b ELSE IF IsNull(b) THEN a ELSE IF CmpB(a, b) <= 0 THEN a ELSE b
+NullMax(a, b) == IF IsNull(a) THEN b ELSE IF IsNull(b) THEN a ELSE IF CmpB(a, b) >= 0 THEN a ELSE b
+RowOfKey(t, k) == LET hit == SelectSeq(t, LAMBDA r : EqB(r[1], k)) IN IF hit = <<>> THEN <<k, IntV(0), IntV(0), Null, Null, Null>> ELSE hit[1]
+CombinedOK(x, y, xy) ==
+  /\ \A i \in 1..Len(xy) :
+        LET k == xy[i][1] a == RowOfKey(x, k) b == RowOfKey(y, k)
+        IN /\ (\E j \in 1..Len(x) : EqB(x[j][1], k)) \/ (\E j \in 1..Len(y) : EqB(y[j][1], k))
+           /\ xy[i][2] = IntV(a[2].i + b[2].i) /\ xy[i][3] = IntV(a[3].i + b[3].i)
+           /\ xy[i][4] = NullAdd(a[4], b[4]) /\ xy[i][5] = NullMin(a[5], b[5]) /\ xy[i][6] = NullMax(a[6], b[6])
+  /\ \A j \in 1..Len(x) : \E i \in 1..Len(xy) : EqB(xy[i][1], x[j][1])
+  /\ \A j \in 1..Len(y) : \E i \in 1..Len(xy) : EqB(xy[i][1], y[j][1])
+IsCombineStatement ==
+  IsAgg /\ Len(q.items) = 6 /\ [i \in 1..6 |-> q.items[i].a] = <<"key", "count_star", "count", "sum", "min", "max">> /\ q.having = NoH /\ ~q.distinct
+CombineLaw ==
+  (AtStart /\ IsCombineStatement) =>
+     LET ls == AllLines
+     IN \A c \in 0..Len(ls) :
+          LET x == AggTable(q, SemEnvs(SubSeq(ls, 1, c), jlines))
+              y == AggTable(q, SemEnvs(SubSeq(ls, c + 1, Len(ls)), jlines))
+              xy == AggTable(q, SemEnvs(ls, jlines))
+          IN (x.st = "ok" /\ y.st = "ok" /\ xy.st = "ok") => CombinedOK(x.recs, y.recs, xy.recs)
 
 TypeOK == /\ pc \in {"loadjoin", "read", "final", "done"}
           /\ status \in {"ok", "err", "unk", "panic"}
